@@ -6,6 +6,7 @@ import Propka.Model.PdbDriver
 import Propka.Model.GroupsDriver
 import Propka.Model.HiddenDriver
 import Propka.Model.ProfilesDriver
+import Propka.Model.DetsDriver
 /-! Line-protocol driver: one request per line `<module> <args…>`, one response line each. -/
 open Propka
 
@@ -19,6 +20,8 @@ def dispatch (ws : List String) : String :=
   | "groups" :: r => Groups.handle r
   | "hidden" :: r => Hidden.handle r
   | "prof" :: r => Profiles.handle r
+  | "dets" :: r => Dets.handle r
+  | "topup" :: r => TopUp.handle r
   | ["ping"] => "pong"
   | _ => "bad-op"
 
